@@ -279,7 +279,7 @@ class Evaluator:
 
     def truth(self, v):
         """Boolean view of a value as a term."""
-        if isinstance(v, BoundExt):
+        if isinstance(v, BoundExt) or type(v).__name__ == "ListElem":
             v = self.lib.as_v(self, v)
         if isinstance(v, Const):
             return Const(bool(v.value))
@@ -1179,9 +1179,9 @@ class Evaluator:
         pa, pb = to_poly(a), to_poly(b)
         if pa is None or pb is None:
             if isinstance(a, Tup) and op == "Add" and isinstance(b, V):
-                return App("tupcat", (a, b))
+                return Tup(list(a.items) + [Star(b)])
             if isinstance(b, Tup) and op == "Add" and isinstance(a, V):
-                return App("tupcat", (a, b))
+                return Tup([Star(a)] + list(b.items))
             if isinstance(a, Const) and isinstance(a.value, str) and op == "Add":
                 return App("strcat", (a, b))
             return App("binop:" + op, (a, b))
